@@ -981,12 +981,51 @@ func c11Dist(c *Ctx, p *Prog) {
 	// floor only for a non-negative dividend; every integer division in the memo-table code must have its dividend
 	// proven non-negative by a dominating comparison (or be a division of two lengths/constants).
 	nDiv := 0
+	var distFns []*ssa.Function
 	for _, name := range []string{"makeUmemo", "twoUmin", "twoUmax"} {
 		fn := p.Fn("internal/stats", name)
 		if fn == nil {
 			c.Undecided(R, "anchor:"+name, "", "function not found")
 			continue
 		}
+		distFns = append(distFns, fn)
+	}
+	// helpers that exist only for these functions (every caller is already in the set) belong to the counting code
+	for changed := true; changed; {
+		changed = false
+		inSet := map[*ssa.Function]bool{}
+		for _, f := range distFns {
+			inSet[f] = true
+		}
+		callers := map[*ssa.Function][]*ssa.Function{}
+		for _, g := range p.Funcs("internal/stats") {
+			eachInstr(g, func(_ *ssa.BasicBlock, in ssa.Instruction) {
+				if ci, ok := in.(ssa.CallInstruction); ok {
+					if sc := ci.Common().StaticCallee(); sc != nil && sc.Pkg == g.Pkg && sc.Blocks != nil {
+						callers[sc] = append(callers[sc], g)
+					}
+				}
+			})
+		}
+		for f, cs := range callers {
+			if inSet[f] {
+				continue
+			}
+			all := len(cs) > 0
+			for _, g := range cs {
+				if !inSet[g] {
+					all = false
+				}
+			}
+			if all {
+				distFns = append(distFns, f)
+				changed = true
+			}
+		}
+	}
+	sort.Slice(distFns, func(i, j int) bool { return distFns[i].Name() < distFns[j].Name() })
+	for _, fn := range distFns {
+		name := fn.Name()
 		eachInstr(fn, func(b *ssa.BasicBlock, in ssa.Instruction) {
 			bo, ok := in.(*ssa.BinOp)
 			if !ok || bo.Op != token.QUO || !isInteger(bo.Type()) {
